@@ -180,6 +180,11 @@ pub trait Engine: Sync {
     fn exhaustive_part(&self) -> Option<String> {
         None
     }
+    /// A case that takes longer than this is reported as a `hang` (the properties say "always
+    /// terminates"); engines with legitimately slow cases override it.
+    fn case_timeout_secs(&self) -> u64 {
+        60
+    }
     /// Try to make a failing case smaller; `still_fails` re-runs a candidate.
     fn shrink(&self, case: &str, _still_fails: &dyn Fn(&str) -> bool) -> String {
         case.to_string()
@@ -323,7 +328,7 @@ fn run_one(engine: &dyn Engine, model: &mut Option<Model>, case: &str, rep: &mut
 
 /// Run an engine: corpus first, then generated cases, on `cfg.threads` workers, each with its own
 /// model process. Returns the merged report.
-pub fn run_engine(engine: &dyn Engine, cfg: &Cfg) -> Report {
+pub fn run_engine(engine: &'static dyn Engine, cfg: &Cfg) -> Report {
     let mut cases: Vec<String> = Vec::new();
     if let Some(file) = &cfg.replay {
         let text = std::fs::read_to_string(file).expect("replay file");
@@ -358,37 +363,108 @@ pub fn run_engine(engine: &dyn Engine, cfg: &Cfg) -> Report {
     }
     let n = cases.len();
     let cases = Arc::new(cases);
-    let next = Arc::new(Mutex::new(0usize));
-    let total = Mutex::new(Report::default());
+    // Workers are plain (non-scoped) threads watched by this thread: a case that does not return
+    // within `case_timeout_secs` is reported as an oracle failure of class `hang`, its worker is
+    // abandoned (it cannot be killed; the process exits at the end of the run) and replaced.
+    struct Shared {
+        cases: Arc<Vec<String>>,
+        next: Mutex<usize>,
+        total: Mutex<Report>,
+        /// per worker slot: (case index, start) of the case in flight
+        inflight: Mutex<Vec<Option<(usize, std::time::Instant)>>>,
+        finished: Mutex<Vec<bool>>,
+    }
     let threads = cfg.threads.max(1).min(n.max(1));
-    std::thread::scope(|s| {
-        for _ in 0..threads {
-            let cases = cases.clone();
-            let next = next.clone();
-            let total = &total;
-            s.spawn(move || {
-                let mut model = Model::spawn_opt(&cfg.model_path);
-                let mut rep = Report::default();
-                loop {
-                    let (lo, hi) = {
-                        let mut g = next.lock().unwrap();
-                        let lo = *g;
-                        let hi = (lo + 16).min(n);
-                        *g = hi;
-                        (lo, hi)
-                    };
-                    if lo >= n {
-                        break;
-                    }
-                    for i in lo..hi {
-                        run_one(engine, &mut model, &cases[i], &mut rep);
-                    }
-                }
-                total.lock().unwrap().merge(rep);
-            });
-        }
+    let max_workers = threads + 8; // up to 8 abandoned workers are replaced
+    let shared = Arc::new(Shared {
+        cases: cases.clone(),
+        next: Mutex::new(0),
+        total: Mutex::new(Report::default()),
+        inflight: Mutex::new(vec![None; max_workers]),
+        finished: Mutex::new(vec![false; max_workers]),
     });
-    let mut rep = total.into_inner().unwrap();
+    let spawn_worker = |slot: usize| {
+        let shared = shared.clone();
+        let model_path = cfg.model_path.clone();
+        std::thread::spawn(move || {
+            let mut model = Model::spawn_opt(&model_path);
+            let n = shared.cases.len();
+            loop {
+                let (lo, hi) = {
+                    let mut g = shared.next.lock().unwrap();
+                    let lo = *g;
+                    let hi = (lo + 16).min(n);
+                    *g = hi;
+                    (lo, hi)
+                };
+                if lo >= n {
+                    break;
+                }
+                let mut rep = Report::default();
+                for i in lo..hi {
+                    shared.inflight.lock().unwrap()[slot] = Some((i, std::time::Instant::now()));
+                    run_one(engine, &mut model, &shared.cases[i], &mut rep);
+                    shared.inflight.lock().unwrap()[slot] = None;
+                }
+                shared.total.lock().unwrap().merge(rep);
+            }
+            shared.finished.lock().unwrap()[slot] = true;
+        });
+    };
+    for slot in 0..threads {
+        spawn_worker(slot);
+    }
+    let mut spawned = threads;
+    let mut abandoned: Vec<bool> = vec![false; max_workers];
+    let timeout = std::time::Duration::from_secs(engine.case_timeout_secs());
+    let mut hangs: Vec<Failure> = Vec::new();
+    loop {
+        std::thread::sleep(std::time::Duration::from_millis(50));
+        let stuck: Vec<(usize, usize)> = {
+            let inflight = shared.inflight.lock().unwrap();
+            (0..spawned)
+                .filter(|&w| !abandoned[w])
+                .filter_map(|w| match inflight[w] {
+                    Some((i, t0)) if t0.elapsed() > timeout => Some((w, i)),
+                    _ => None,
+                })
+                .collect()
+        };
+        for (w, i) in stuck {
+            abandoned[w] = true;
+            hangs.push(Failure {
+                kind: "impl-vs-oracle",
+                class: "hang".to_string(),
+                case: cases[i].clone(),
+                impl_out: "HANG".to_string(),
+                model_out: String::new(),
+                detail: format!("the case did not return within {} s (worker abandoned)", timeout.as_secs()),
+            });
+            if spawned < max_workers {
+                spawn_worker(spawned);
+                spawned += 1;
+            }
+        }
+        let finished = shared.finished.lock().unwrap();
+        let live = (0..spawned).filter(|&w| !abandoned[w]).count();
+        let done = (0..spawned).filter(|&w| !abandoned[w] && finished[w]).count();
+        if done == live {
+            break; // every non-abandoned worker ran out of cases (or none is left)
+        }
+    }
+    let mut rep = std::mem::take(&mut *shared.total.lock().unwrap());
+    let hang_count = hangs.len() as u64;
+    rep.failure_count += hang_count;
+    rep.evaluations += hang_count;
+    for h in hangs {
+        if rep.failures.iter().filter(|g| g.class == "hang").count() < 3 {
+            rep.failures.push(h);
+        }
+    }
+    if hang_count > 0 {
+        // do not re-execute anything in this thread (shrinking could hang it too)
+        return rep;
+    }
     // shrink the kept failures (sequentially, with a fresh model)
     if !rep.failures.is_empty() {
         let model = Mutex::new(Model::spawn_opt(&cfg.model_path));
